@@ -768,7 +768,9 @@ wrapped_interval<Number>::operator||(const wrapped_interval<Number> &x) const {
       delta =
           (m_end * wrapint(2, w)) - (m_start * wrapint(2, w)) + wrapint(1, w);
     }
-    return x | wrapped_interval<Number>(x.m_start, x.m_start + delta);
+    // x contains both end points of *this but not necessarily *this
+    // (they can overlap at both ends): start from the join.
+    return join | wrapped_interval<Number>(x.m_start, x.m_start + delta);
   } else {
     return wrapped_interval<Number>::top();
   }
@@ -910,7 +912,9 @@ wrapped_interval<Number> wrapped_interval<Number>::widening_thresholds(
           (m_end * wrapint(2, w)) - (m_start * wrapint(2, w)) + wrapint(1, w);
     }
     // TODO: apply thresholds
-    return x | wrapped_interval<Number>(x.m_start, x.m_start + delta);
+    // x contains both end points of *this but not necessarily *this
+    // (they can overlap at both ends): start from the join.
+    return join | wrapped_interval<Number>(x.m_start, x.m_start + delta);
   } else {
     return wrapped_interval<Number>::top();
   }
